@@ -51,6 +51,7 @@ type listener struct {
 
 	ln           net.Listener
 	conns        map[net.Conn]struct{}
+	stopped      bool // guarded by mu
 	connsWg      sync.WaitGroup
 	connHandleFn ConnHandlerFunc
 
@@ -211,7 +212,7 @@ func (l *listener) wrapRawConn(rawConn net.Conn) net.Conn {
 func (l *listener) addConn(conn net.Conn) bool {
 	l.mu.Lock()
 	defer l.mu.Unlock()
-	if l.conns == nil {
+	if l.stopped {
 		return false
 	}
 	if l.connsLimit() {
@@ -228,9 +229,6 @@ func (l *listener) addConn(conn net.Conn) bool {
 func (l *listener) removeConn(conn net.Conn) {
 	l.mu.Lock()
 	defer l.mu.Unlock()
-	if l.conns == nil {
-		return
-	}
 	if _, ok := l.conns[conn]; !ok {
 		return
 	}
@@ -269,15 +267,21 @@ func (l *listener) Stop() error {
 		close(l.quit)
 	})
 
+	// Take a snapshot of the connections to close. The registry itself
+	// stays so that the handlers still deregister their connection (and
+	// update the stats), no new connection is registered once stopped.
 	l.mu.Lock()
-	conns := l.conns
-	l.conns = nil
+	l.stopped = true
+	conns := make([]net.Conn, 0, len(l.conns))
+	for conn := range l.conns {
+		conns = append(conns, conn)
+	}
 	l.mu.Unlock()
 
 	if l.ln != nil {
 		l.ln.Close()
 	}
-	for conn := range conns {
+	for _, conn := range conns {
 		conn.Close()
 	}
 	<-l.done
